@@ -96,14 +96,16 @@ def build(case):
     p = case["par"]
     Q = grid_of(case)  # noqa: shadows the default grid
     pool = RecPool(supply=from_grid(case["supply"], Q), demand=from_grid(case["tdemand"], Q), utilisation=0.25, allocation=0.75)
-    std = Standardiser(
-        pool,
+    kw = dict(
         minimum=from_grid(p["min"], Q),
         maximum=from_grid(p["max"], Q),
         granularity=gran_value(p["g"], case.get("gty", "int"), Q),
         surplus=from_grid(p["surplus"], Q),
         backlog=from_grid(p["backlog"], Q),
     )
+    if case.get("nan"):
+        kw[case["nan"]] = float("nan")   # not a number, hence not a positive number
+    std = Standardiser(pool, **kw)
     return pool, std
 
 
@@ -158,7 +160,8 @@ def random_case(rnd, params, values, supplies, depth):
             ops.append({"e": "OutsideDemand", "v": rnd.choice(values)})
         else:
             ops.append({"e": "Fitness", "u": rnd.randrange(0, 5), "a": rnd.randrange(0, 5)})
-    return {"par": par, "supply": rnd.choice(supplies + [INF]), "tdemand": rnd.choice(values), "ops": ops, "gty": rnd.choice(["int", "float"]), "src": "random"}
+    return {"par": par, "supply": rnd.choice(supplies + [INF]), "tdemand": rnd.choice(values), "ops": ops, "gty": rnd.choice(["int", "float"]), "src": "random",
+            "nan": rnd.choice(["surplus", "backlog", "granularity"]) if rnd.random() < 0.06 else None}
 
 
 def execute_with_incr(case):
@@ -170,6 +173,10 @@ def execute_with_incr(case):
     try:
         pool, std = build(case)
     except Exception as ex:  # noqa: the constructor refuses a combination it is documented to accept
+        if case.get("nan"):
+            # ... or one it has to refuse: a NaN surplus / backlog / granularity is not positive.
+            # (Were it accepted, the history below is judged with the finite value in its place.)
+            return case, {"par": dict(case["par"], one=Q), "supply": case["supply"], "tdemand": case["tdemand"], "sdemand": case["tdemand"], "events": []}
         # nothing can be written or read: every write and read of the history is off any grid
         events = []
         for op in case["ops"]:
